@@ -214,7 +214,24 @@ Example c11_bound_sharp :
                snd (adts_decode asc0 adts) <> Ok (repeat 0 8185, []).
 Proof. eexists. split; [vm_compute; reflexivity|]. vm_compute. discriminate. Qed.
 
+(* outside the property (not a conformant frame), recorded for honesty: a header whose
+   frame_length field is smaller than the header itself is not refused as such -- the uint16
+   subtraction wraps, so with 65529 bytes behind a 7-byte header those bytes come back as one
+   "raw block"; with fewer bytes the call fails with "requires 65529 but only ..." *)
+Theorem c11_length_underflow_quirk st (p : bytes) :
+  let hdr := [255; 241; 80; 128; 0; 0; 252] in          (* LC, 44.1 kHz, stereo, frame_length 0 *)
+  (lenN p = 65529 -> adts_decode st (hdr ++ p) = (mk_asc 2 4 2, Ok (p, []))) /\
+  (1 <= lenN p < 65529 -> adts_decode st (hdr ++ p) = (mk_asc 2 4 2, Err 4)).
+Proof.
+  intros hdr. split; intros H; (destruct p as [|x p]; [change (lenN []) with 0 in H; lia|]);
+    unfold hdr; rewrite length_underflow.
+  - rewrite H. change (65529 <? 65529) with false. cbv iota.
+    rewrite <- (app_nil_r (x :: p)) at 1. rewrite splitN_app by exact H. reflexivity.
+  - replace (lenN (x :: p) <? 65529) with true by (symmetry; apply N.ltb_lt; lia). reflexivity.
+Qed.
+
 Print Assumptions c11_accepted.
+Print Assumptions c11_length_underflow_quirk.
 Print Assumptions c11_bound_sharp.
 Print Assumptions c11_adts_rt.
 Print Assumptions c11_setasc_rt.
